@@ -80,5 +80,6 @@ pub fn registry() -> Vec<ScenarioDef> {
         ScenarioDef { property: "C14", name: "c14/tpkt_write", run: c14::run_tpkt, quick_cases: 60_000, thorough_cases: 8_000_000, needs_tls: false },
         ScenarioDef { property: "C14", name: "c14/link_write", run: c14::run_link, quick_cases: 40_000, thorough_cases: 6_000_000, needs_tls: false },
         ScenarioDef { property: "C14", name: "c14/tls_write", run: c14::run_tls, quick_cases: 6_000, thorough_cases: 400_000, needs_tls: true },
+        ScenarioDef { property: "C14", name: "c14/session_write", run: c14::run_session, quick_cases: 3_000, thorough_cases: 200_000, needs_tls: true },
     ]
 }
